@@ -42,6 +42,29 @@ def flatMap : Stage :=
   .prim (flatMapOp el) (some (pFlatMap el))
 def scan (g : F2) (seed : Val) (reduce : Bool) (term : Option (Val → Val)) : Stage :=
   .prim (scanOp g seed reduce term) (some (pScan g seed reduce term))
+/-- what the typed state array `scan_mux` keeps its accumulator in (`data_type=type(seed)`) does with a value: an int
+seed means `array('q')`, a float seed `array('d')`, a bool seed `array('B')`; a value of another kind is rejected.
+(Accepted values are stored unchanged: accumulators stay within the seed's type — the domain of the model.) -/
+def storable (seed a : Val) : Except Err Val :=
+  match seed, a with
+  | .int _, .int i => if -(2 ^ 63 : Int) ≤ i ∧ i < 2 ^ 63 then .ok a else .error "OverflowError"
+  | .int _, .bool _ => .ok a
+  | .int _, _ => .error "TypeError"
+  | .float _, .float _ => .ok a
+  | .float _, .int _ => .ok a
+  | .float _, .bool _ => .ok a
+  | .float _, _ => .error "TypeError"
+  | .bool _, .bool _ => .ok a
+  | .bool _, .int i => if 0 ≤ i ∧ i < 256 then .ok a else .error "OverflowError"
+  | .bool _, _ => .error "TypeError"
+  | _, _ => .ok a
+
+/-- `scan` as the multiplexed code runs it with a value seed: the typed store rejects a non-storable accumulator — the
+exception is raised inside scan's `try`, so it is one mux error with the state unchanged, exactly like a raising accumulator
+(the plain path keeps its state in a closure and accepts anything) -/
+def scanTyped (g : F2) (seed : Val) (reduce : Bool) (term : Option (Val → Val)) : Stage :=
+  .prim (scanOp (fun acc x => do let a ← g acc x; storable seed a) seed reduce term) (some (pScan g seed reduce term))
+
 def first : Stage := .prim firstOp (some pFirst)
 def last : Stage := .prim lastOp (some pLast)
 def take (n : Nat) : Stage := .prim (takeOp n) (some (pTake n))
